@@ -21,6 +21,13 @@ CLAIMS = {
          "ends) and is silent afterwards (C04_silent_after_end); closed forms for merge and take_until. Each run executes all pairs of "
          "scripts <= 3 items x all interleavings x local and _threads forms, plus cold inputs in every position, on the crate.",
          "DESIGN.md section 5 C04"),
+ "C06": ("Theorem C06_subject_refines: for every history (any length, any number of subscribers) of subscribe / unsubscribe-one / "
+         "next / next-with-subscription-inside-a-callback / error / complete / clone / retain / unsubscribe-subject and queries, the "
+         "observers+chamber implementation model yields exactly the deliveries and answers of the abstract multicast set (refinement with "
+         "an abstraction function); C06_closed_reports / C06_closed_for_ever: after a terminal or unsubscribe the subject is finished, "
+         "empty and silent for ever. One model serves Subject, SubjectThreads and the three MutRef subjects (one macro body); each run "
+         "executes all histories <= 4 operations (18 kinds) plus 50k random longer ones on all five real types. Lock-level interleavings "
+         "of SubjectThreads are not covered here (C10).", "DESIGN.md section 5 C06"),
 }
 
 checks = []
